@@ -63,6 +63,72 @@ def by_hand(adapter, d, X):
     return out
 
 
+def special_configurations_and_data(ctx):
+    """(a) the configuration given as a plain dict with filtering disabled (`{"innovation_filtering": None}`), data with a gross
+    outlier row: transform is still the exported filter run by hand; (b) data the model predicts almost exactly (total NIS far
+    below 1e-6): the score is still the documented combination"""
+    from formak import python
+    for i in range(2 if ctx.quick else 10):
+        d = gen.tame_definition(ctx.rng, n_control=1, n_sensors=2, n_calib=0)
+        process, sensor = eh.make_noises(ctx.rng, d)
+        width = len(d.control) + sum(len(rd) for rd in d.sensors.values())
+        # (a)
+        X = np.array([[float(gen.dyadic(ctx.rng, -2, 2)) for _ in range(width)] for _ in range(5)], dtype=float)
+        X[1, len(d.control):] += 300.0
+        case = {"def": d.describe(), "stream": "dict-config-filtering-disabled", "X": X.tolist()}
+        ctx.case(case, True); ctx.count("stream=dict-config-filtering-disabled")
+        try:
+            with fk.quiet():
+                ad = python.SklearnEKFAdapter.Create(
+                    fk.ui_model(d), {sympy.Symbol(n): float(v) for n, v in process.items()}, {key: dict(rd) for key, rd in d.sensors.items()},
+                    {key: {r: float(v) for r, v in rd.items()} for key, rd in sensor.items()}, {}, config={"innovation_filtering": None})
+                T = np.asarray(ad.transform(X), dtype=float)
+                H = np.array(by_hand(ad, d, X.tolist()), dtype=float)
+            if T.shape != H.shape or float(np.max(np.abs(T - H))) > 1e-9 * (1 + float(np.max(np.abs(H)))):
+                ctx.fail("transform-vs-byhand:dict-config", f"config given as a dict with filtering disabled: transform returns {T.tolist()}, the exported "
+                         f"filter run by hand gives {H.tolist()}", case)
+        except Exception as e:
+            ctx.fail(f"adapter-raises:{fk.exc_kind(e)}:dict-config", f"adapter with a dict configuration raises {e!r}"[:300], case)
+        # (b)
+        try:
+            with fk.quiet():
+                ad = make_adapter(d, process, sensor, {}, None)
+                ekf = ad.export_python()
+                st, cv = ekf.State(), ekf.Covariance()
+                rows = []
+                nc = len(d.control)
+                for r_i in range(4):
+                    ctl_vals = [0.25 * (r_i + 1)] * nc
+                    st, cv = ekf.process_model(0.1, st, cv, ekf.Control.from_data(np.array(ctl_vals, dtype=float).reshape((nc, 1))))
+                    row = list(ctl_vals)
+                    for key in sorted(d.sensors):
+                        m = len(d.sensors[key])
+                        z = np.asarray(ekf.sensor_models[key].model(st).data, dtype=float).reshape((m, 1)) + 1e-6 * (1 + r_i)
+                        row += z.reshape(-1).tolist()
+                        st, cv = ekf.sensor_model(st, cv, sensor_key=key, sensor_reading=ekf.make_reading(key, data=z))
+                    rows.append(row)
+                Xe = np.array(rows, dtype=float)
+                T = np.asarray(ad.transform(Xe), dtype=float)
+                sc, expl = ad.score(Xe, explain_score=True)
+            case = {"def": d.describe(), "stream": "nearly-exact-data", "X": Xe.tolist(), "total_nis": float(np.sum(T))}
+            ctx.case(case, True); ctx.count("stream=nearly-exact-data")
+            bias = float(np.mean(np.sqrt(T.flatten()))) ** 2
+            var = float(np.sum(T))
+            mat = sum(float(v) ** 2 for v in process.values()) + sum(float(v) ** 2 for rd in sensor.values() for v in rd.values())
+            want = 10.0 * bias + 1.0 * ((1.0 / var + var) / 2.0) + 0.01 * mat
+            if not (var < 1e-6):
+                ctx.count("nearly_exact_data_not_small_enough")
+            if not core.close(sc, want, scale=abs(want)):
+                ctx.fail("score-formula:nearly-exact-data", f"total NIS {var!r}: score {sc!r} is not 10*bias + (1/var + var)/2 + 0.01*matrix = {want!r}", case)
+        except ValueError as e:
+            if "not finite" in str(e):
+                ctx.count("score_not_finite_on_exact_data")
+            else:
+                ctx.fail(f"adapter-raises:{fk.exc_kind(e)}:nearly-exact", repr(e)[:300], {"def": d.describe(), "stream": "nearly-exact-data"})
+        except Exception as e:
+            ctx.fail(f"adapter-raises:{fk.exc_kind(e)}:nearly-exact", repr(e)[:300], {"def": d.describe(), "stream": "nearly-exact-data"})
+
+
 def run(ctx):
     audit = core.lean_audit("C16")
     drv = core.Driver()
@@ -160,6 +226,7 @@ def run(ctx):
             idx = drv.add({"op": "transform", "ekf": eh.ekf_json(d, process, sensor, k), "cal": [[a, core.frac_str(b)] for a, b in cal.items()],
                            "X": case["X"][:LEAN_ROWS]})
             pending.append((idx, T1, k, d, case))
+    special_configurations_and_data(ctx)
     ans = drv.run()
     for idx, T1, k, d, info in pending:
         a = ans[idx]
